@@ -99,6 +99,9 @@ func (rl *ReconciledLoader) SetRemoteOnline(online bool) {
 	if rl.open && !wasOpen {
 		// if we're opening a remote request, we need to reverify against what we've loaded so far
 		rl.verifier = traversalrecord.NewVerifier(rl.traversalRecord)
+		// anything still queued was sent for the previous remote request (left behind when it was
+		// interrupted): the new response starts again from the root
+		rl.remoteQueue.clear()
 	}
 }
 
